@@ -83,7 +83,7 @@ impl Env {
     /// failure of the callee is a symbolic choice and is returned, not trapped
     pub fn try_invoke_contract<T: TryFromVal<Env, Val>, E>(&self, a: &Address, f: &crate::Symbol, args: crate::Vec<Val>) -> Result<Result<T, ConversionError>, Result<E, crate::InvokeError>> {
         if crate::model::nondet_callee_failure() {
-            return Err(Err(crate::InvokeError::Abort));
+            return Err(Err(crate::model::nondet_invoke_error()));
         }
         let r = crate::model::invoke_raw(a, f, args);
         Ok(T::try_from_val(self, &r).map_err(|_| ConversionError))
